@@ -101,9 +101,21 @@ def gen_case(rng, i):
     if opt == "number":
         # requested totals inside, below and above what the bounds allow
         val = float(rng.uniform(np.sum(lbv) - 0.5 * np.sum(ubv - lbv), np.sum(ubv) + 0.5 * np.sum(ubv - lbv)))
+        k = int(rng.integers(8))
+        if k < 4:       # boundary values of the option: zero (float / int / numpy scalar), an integer total, the bound totals
+            val = [0.0, 0, float(np.round(val)), int(np.round(val))][k]
+        elif k == 4:
+            val = float([np.sum(lbv), np.sum(ubv)][rng.integers(2)])
     elif opt == "vector":
         # requested intensity vectors inside the bounds and with components outside them
         val = rng.uniform(lbv, ubv) + (rng.random(n) < 0.4) * rng.normal(0, 1, n) * (ubv - lbv)
+        k = int(rng.integers(8))
+        if k == 0:
+            val = np.zeros(n)
+        elif k == 1:
+            val = np.round(val)         # integer-valued vector (handed over as int64 by the harness)
+        elif k == 2:
+            val = [lbv, ubv][rng.integers(2)].copy()
     wk = "receptor" if rng.integers(3) == 0 else "none"
     s.update({"B": X @ Mt.T + c0, "opt": opt, "val": val, "l2_eps": float(10 ** rng.uniform(-6, -3)),
               "wkind": wk, "W": rng.uniform(0.5, 2, m) if wk == "receptor" else None,
